@@ -217,7 +217,7 @@ C17_GrantsByAdmins == Step =>
             Ok /\ E.act \in AllowanceActs /\ E.by \in admins /\ E.args.spender = k
        \* an Execute (whatever it relays, also to the proxy itself) can only consume the caller's own allowance
        /\ (al'[k] # al[k] /\ E.act = "execute") =>
-            Ok /\ E.by = k /\ al'[k].exp = al[k].exp /\ \A d \in Denom : al'[k].c[d] <= al[k].c[d]
+            Ok /\ E.by = k /\ al'[k].has = al[k].has /\ al'[k].exp = al[k].exp /\ \A d \in Denom : al'[k].c[d] <= al[k].c[d]
 \* an accepted instantiate installs exactly the requested admins and flag, and no grants
 \* (a fixture run starts from storage recorded from the released code)
 FromFixture == "fixture" \in DOMAIN E.cfg
